@@ -268,7 +268,7 @@ fn deviation_decided() -> impl Strategy<Value = Deviation> {
         2 => pos().prop_map(|pos| AuthorityNoCertSign { pos }),
         1 => pos().prop_map(|pos| AuthorityNoKeyUsage { pos }),
         2 => Just(PathLenZeroWithIca),
-        3 => (pos(), any::<bool>()).prop_map(|(pos, explicit_false_first)| CriticalUnknownExt { pos, explicit_false_first }),
+        3 => (pos(), any::<bool>(), any::<bool>()).prop_map(|(pos, explicit_false_first, separate_element)| CriticalUnknownExt { pos, explicit_false_first, separate_element }),
         2 => Just(LeafNoNodeId),
         2 => Just(LeafNoFabricId),
         2 => Just(LeafOtherFabric),
